@@ -211,6 +211,24 @@ def run(chk, replay=None):
     ev.replayed(nonlocal_n[0])
     ev.sample({"sequence": seqs2[7], "roles": {"A": fam[2], "B": fam[3]}})
 
+    # ---- the SAME bytes decoded by two classes: what B reads in them is B's layout applied to the bytes, whoever
+    # decoded those bytes before (the expected dictionary comes from TLC: T10Cdb!DictDecode(B, bytes))
+    for a_ in names:
+        ra = refs[a_]
+        for b_ in names:
+            rb = refs[b_]
+            if a_ == b_ or len(ra.cdb) != len(rb.cdb):
+                continue
+            try:
+                ra.K.unmarshall_cdb(bytearray(ra.cdb))
+                out = {k: int(v) for k, v in rb.K.unmarshall_cdb(bytearray(ra.cdb)).items() if isinstance(v, int)}
+            except Exception as ex:
+                out = {"#raised": 1}
+            nonlocal_n[0] += 1
+            note({"ev": "DecodeBytes", "cls": b_, "in": list(ra.cdb), "out": {k: num(v) for k, v in out.items()}},
+                 "ClassDeterminesCodec", b_, a_)
+        ev.case(("same-bytes", a_))
+
     # ---- the parameter-data codecs of other commands as the "other command" --------------------------------
     # A value cache shared between commands only shows when the other command handles EQUAL values, so
     # the disturbing calls are fed the victims' own field values: every decoded sample response of every
